@@ -375,6 +375,15 @@ var entries = []entry{
 		err := x.Scan(s)
 		return &x.Decimal, false, err
 	}},
+	{"NullDecimal.Scan([]byte)", func(s string) (*apd.Decimal, bool, error) {
+		// a non-nil byte slice is text, the empty one included: only a nil source is NULL
+		var x apd.NullDecimal
+		err := x.Scan([]byte(s))
+		if err == nil && !x.Valid {
+			return &x.Decimal, false, nil // reported as accepted: the caller judges that against the grammar
+		}
+		return &x.Decimal, false, err
+	}},
 }
 
 func checkParse(c Case, st *core.Stats) error {
